@@ -33,6 +33,8 @@ def register(E):
         r = ctx.new_obj('request', distinct=False)
         ctx.assume(r != Z.NONE)
         ctx.assume(REQ_ENV(r) == box(environ, ctx))
+        from pyvc.state import SHAREDP
+        ctx.assume(z3.Not(SHAREDP(r)))       # a request object built in this call belongs to this request
         return VObj(r, 'Request')
     for nm in ('werkzeug.wrappers.Request', 'werkzeug.wrappers.request.Request', 'clastic.application.Request'):
         E.externals[nm] = request_ctor
